@@ -109,6 +109,12 @@ def check_inputs(net, spec, res, ops=None):
         for i in list(sd.node_ids()):
             res["evals"] += 1
             vio += monitored(net, lambda: sd.node_attractor_sets(i, compute=True), res, case)
+    # attractor queries on the unexpanded root (all attractors of the network in one node)
+    for q in (("seeds", 0), ("sets", 0), ("cand", 0, False, False)):
+        case = {"net": list(spec), "ops": [list(q)]}
+        sd = new_sd(net)
+        res["evals"] += 1
+        vio += monitored(net, lambda: apply(sd, q), res, case)
     # symbolic fallback on stub root and on expanded root
     for pre in ((), (("succ", 0),)):
         case = {"net": list(spec), "ops": [list(o) for o in pre] + ["fallback(0)"]}
